@@ -8,4 +8,4 @@ Extraction "model.ml"
   inner_new step run hdr_decode
   sys_fresh sys_established sys_step sys_run snap_of
   ring_new ring_push ring_pop ring_len ring_free ring_clear ring_is_full ring_is_empty
-  mon_step mon_endpoint rs_init pmon_run pmon_step ps_ok win_ok ps_init mon_pair is_data_seg.
+  mon_step mon_endpoint rs_init pmon_run pmon_step ps_ok win_ok ps_init mon_pair is_data_seg head_is_data seg_has_ack.
